@@ -59,7 +59,7 @@ def compare_runs(L, what, pre_a, outs_a, pre_b, outs_b, drop, cex=None, fields=F
 
 
 REC_SCEN = {
-    "over": ["limit stack 4", "eval 1 2 over over", "stack", "eval over", "stack", "eval depth collect drop", "recording on", "eval 1 2 over over", "eval over", "stack"],
+    "over": ["limit stack 4", "eval 1 2 over over", "eval over", "eval drop drop drop drop", "recording on", "eval 1 2 over over", "eval over", "stack"],
 }
 
 
@@ -78,7 +78,7 @@ def recording_lemma(opcode=None, native=None):
         outs_b = L.run("fetch_and_run", [pb.xs], pb.pc, pb.roots())
         what = "recording off/on, %s" % (opcode or native[1])
         sc = REC_SCEN.get(native[1]) if native else None
-        cex = (lambda m: {"lines": sc, "expect": [("no_panic",), ("results_same_kind", [1, 3])]}) if sc else None
+        cex = (lambda m: {"lines": sc, "expect": [("no_panic",), ("results_same_kind", [1, 4])]}) if sc else None
         if opcode in ("Store", "Load"):
             from e2.scen import cell_push_line
 
